@@ -69,7 +69,7 @@ func pathFill(tag uint64, totalUp, totalDown int64, off int64, buf []byte) {
 // pathRead verifies bytes [start, total) of stream tag and then expects end-of-stream when
 // wantEOF (the peer closes after its last byte). Returns whether EOF/err was seen after the bytes.
 func pathRead(rd io.Reader, tag uint64, tu, td int64, total, start int64, rng *mrand.Rand, got *int64, mu *sync.Mutex, fail func(string, ...any), waitEnd bool) (ended bool) {
-	buf := make([]byte, 1+rng.IntN(40000))
+	buf := make([]byte, 16+rng.IntN(40000))
 	off := start
 	for off < total {
 		n, err := rd.Read(buf[:1+rng.IntN(len(buf))])
